@@ -107,11 +107,23 @@ func callEntry(e int, buf []byte) (res string, panicked bool, what interface{}) 
 			if err == nil {
 				_, _ = encoding.SerializeStructToCBOR(extEM, d)
 			}
+			// other destinations of the same convention: an embedded interface holding a pointer, holding nothing,
+			// holding a struct by value (not writable: an error, not a panic)
+			for _, o := range []interface{}{&ShIface{IExt: &ShInner2{}}, &ShIface{}, &ShIfaceVal{IExtV: ShValInner{}}, &ShTagOrder{}} {
+				if encoding.PopulateStructFromCBOR(extDM, in, o) == nil {
+					_, _ = encoding.SerializeStructToCBOR(extEM, o)
+				}
+			}
 		case 8:
 			d := &ShTwo{}
 			err = encoding.PopulateStructFromJSON(in, d)
 			if err == nil {
 				_, _ = encoding.SerializeStructToJSON(d)
+			}
+			for _, o := range []interface{}{&ShIface{IExt: &ShInner2{}}, &ShIface{}, &ShIfaceVal{IExtV: ShValInner{}}, &ShTagOrder{}} {
+				if encoding.PopulateStructFromJSON(in, o) == nil {
+					_, _ = encoding.SerializeStructToJSON(o)
+				}
 			}
 		case 9:
 			c := ExtProfile{Name: extName(0), Base: 2}.GetClaims()
@@ -426,6 +438,11 @@ func runC05(r *Run, rng *Rng, thorough bool) {
 		for _, e := range []int{0, 1, 3, 4, 7, 9, 11} {
 			try("cbor-handwritten", e, b)
 		}
+	}
+	// (a4) envelopes with unusual header placements (algorithm only in the unprotected header, as text, as bytes, …),
+	// genuinely signed by hand so that verification gets as far as it can
+	for _, ht := range handTokens(rng) {
+		try("hand-signed/"+ht.label, 0, ht.tok)
 	}
 	// (b) the C04 and C20 generators through every CBOR entry point
 	ntok := 0
